@@ -553,7 +553,9 @@ pub fn lock_programs(tier: &str) -> (Vec<Program>, String) {
         v.extend(fam::lock_family(2, 0, 2, 4, 8, true, true));
         v.extend(fam::lock_family(1, 1, 2, 3, 6, true, true));
         v.extend(fam::lock_family(1, 0, 3, 3, 7, true, true));
-        level = "LOCK: 2 mutexes 2 threads x <=4 ops; mutex+rwlock 2 threads x <=3 ops; 1 mutex 3 threads <=7 ops; + sentinels".to_string();
+        v.extend(fam::lock_family(0, 1, 2, 4, 8, true, true));
+        v.extend(fam::lock_family(0, 1, 3, 2, 6, true, false));
+        level = "LOCK: 2 mutexes 2 threads x <=4 ops; mutex+rwlock 2 threads x <=3 ops; 1 rwlock 2 threads x <=4 ops, 3 threads x 2 ops; 1 mutex 3 threads <=7 ops; + sentinels".to_string();
     } else {
         v.extend(fam::lock_family(2, 0, 2, 5, 10, true, true));
         v.extend(fam::lock_family(1, 1, 2, 4, 8, true, true));
